@@ -223,6 +223,19 @@ impl<K: Kern<D>, const D: usize> World<K, D> {
         Snap::of(self.dt.tds())
     }
 
+    /// An independent copy of the world (triangulation cloned through the library's `Clone`).
+    pub fn fork(&self) -> Self {
+        World {
+            dt: self.dt.clone(),
+            salt: self.salt,
+            next_id: self.next_id,
+            removed: self.removed.clone(),
+            stale_cells: self.stale_cells.clone(),
+            stale_vertices: self.stale_vertices.clone(),
+            saved: None,
+        }
+    }
+
     /// Insert into a clone (the world itself is untouched) and report the outcome.
     pub fn probe_insert(&self, coords: &[f64], uuid: u128, stats: bool) -> Outcome {
         let mut c = self.dt.clone();
